@@ -17,6 +17,9 @@
 //	U     (first) the application's notification channel is unbuffered
 //	Rdata the server answers with a data notification; T the application takes it;
 //	I     the application calls SubscriptionIDs() (must return within a second)
+//	Rbad  the server answers with a PublishResponse whose ServiceResult is BadInternalError and
+//	      SubscriptionID 0 (the error is fanned out to every subscription and Client.monitor
+//	      reconnects); Te: the consumer takes one error notification
 //
 // After every operation the system runs to quiescence and its abstract state
 // (len(pausech), len(resumech), where the loop stands, who holds subMux, which
@@ -80,6 +83,8 @@ type sys struct {
 	dlStarted  bool
 	// SubscriptionIDs() calls that did not return within a second
 	idsBlocked int
+	// error notifications the consumer waited for in vain
+	errNotTaken int
 	// the server answered BadNoSubscription while the client had a subscription registered
 	noSubWhileRegistered bool
 }
@@ -336,6 +341,28 @@ func (y *sys) apply(op string) bool {
 		case <-time.After(time.Second):
 			y.idsBlocked++
 		}
+	case "Rbad":
+		// a PublishResponse with an unhandled bad ServiceResult and SubscriptionID 0: the
+		// error is fanned out to every subscription
+		y.mu.Lock()
+		if len(y.held) == 0 || len(y.subs) < 2 || y.subStarted != y.subReturned {
+			y.mu.Unlock()
+			return false
+		}
+		hd := y.held[len(y.held)-1]
+		y.held = nil
+		y.mu.Unlock()
+		y.seq++
+		resp := xsubs.DataResponse(hd.req, 0, y.seq, 0, nil, 0, 0)
+		resp.ResponseHeader.ServiceResult = ua.StatusBadInternalError
+		hd.c.Reply(hd.reqID, resp)
+	case "Te":
+		// the consumer takes one (error) notification
+		select {
+		case <-y.notif:
+		case <-time.After(1500 * time.Millisecond):
+			y.errNotTaken++
+		}
 	case "Rlie":
 		// BadNoSubscription although a subscription is registered at the client (a late
 		// answer to a request the server processed while it had none, or a server at fault)
@@ -415,6 +442,9 @@ func (y *sys) probe() (ok bool, why string) {
 			break
 		}
 		y.settle()
+	}
+	if y.errNotTaken > 0 {
+		return false, fmt.Sprintf("%d error notifications of a failed publish never reached the consumer", y.errNotTaken)
 	}
 	if y.idsBlocked > 0 {
 		return false, fmt.Sprintf("%d SubscriptionIDs() calls did not return within 1 s (the publish loop was handing a notification to the application)", y.idsBlocked)
@@ -507,7 +537,7 @@ const initState = "1,0,free,sel,0,0,0,0,0,0,0,0"
 func (e *env) scenario(ops []string) (infra string, disagree *h.Disagreement, fail *h.OracleFailure, confirmed string, trace string) {
 	reconnect, unbuffered := false, false
 	for _, op := range ops {
-		if op == "X" {
+		if op == "X" || op == "Rbad" {
 			reconnect = true
 		}
 		if op == "U" {
@@ -533,6 +563,12 @@ func (e *env) scenario(ops []string) (infra string, disagree *h.Disagreement, fa
 			disagree = &h.Disagreement{Case: name + " | " + req, Model: "allowed quiescent states: " + e.d.Ask(fmt.Sprintf("after %s %s", state, op)), Impl: obs.String()}
 			return false
 		}
+		// several quiescent outcomes for one operation: pause and resume tokens were queued
+		// together on the way and the order in which the select read them decided (the
+		// situation of C27.pause-overtakes-resume, even if no quiescent point shows both)
+		if all := e.d.Ask(fmt.Sprintf("after %s %s", state, op)); strings.Contains(all, "|") {
+			y.sawBoth = true
+		}
 		state = e.d.Ask(fmt.Sprintf("pick %s %s %s", state, op, obs))
 		return true
 	}
@@ -549,8 +585,8 @@ func (e *env) scenario(ops []string) (infra string, disagree *h.Disagreement, fa
 		if !y.apply(op) {
 			continue // precondition not met (nothing registered / nothing outstanding): skipped
 		}
-		if op == "I" {
-			e.r.Hit("op:I")
+		if op == "I" || op == "Te" {
+			e.r.Hit("op:" + op)
 			continue // no effect on the abstract state
 		}
 		e.r.Hit("op:" + op)
@@ -796,7 +832,7 @@ func main() {
 		}
 		e.run(ops)
 	}
-	for _, b := range []string{"op:S", "op:F", "op:G", "op:Rok", "op:Rerr", "op:X", "op:Rign", "op:gate", "op:Gt", "op:Dl", "op:Rdata", "op:T", "op:I", "op:Rlie", "model-verdict:dead", "model-verdict:live", "oracle:progress"} {
+	for _, b := range []string{"op:S", "op:F", "op:G", "op:Rok", "op:Rerr", "op:X", "op:Rign", "op:gate", "op:Gt", "op:Dl", "op:Rdata", "op:T", "op:I", "op:Rlie", "op:Rbad", "op:Te", "model-verdict:dead", "model-verdict:live", "oracle:progress"} {
 		if r.Distribution[b] == 0 {
 			r.Unreached = append(r.Unreached, b)
 		}
